@@ -845,8 +845,27 @@ def tree_case(ctx, i):
         bad('flatten-inverse', 'canonicalize', f'canonicalize raised {o2[1]!r} on {flat!r:.300}')
       elif not same(to_plain(o2[1]), want):
         bad('flatten-inverse', 'canonicalize', f'flat={flat!r:.400}\nback={o2[1]!r:.400}')
-      elif not any(isinstance(k, str) and any(ch in k for ch in SPECIAL)
-                   for keys in exp_leaves for k in keys):
+      else:
+        # A path-keyed dict is a mapping: the order in which its items were
+        # inserted must not matter to canonicalize (list positions come from the
+        # indices in the paths), and flattening the result gives it back.
+        items = list(flat.items())
+        rng.shuffle(items)
+        flat2 = dict(items)
+        c['flatten_inverse_shuffled'] += 1
+        o4 = outcome(lambda: pg.utils.canonicalize(flat2))
+        if o4[0] == 'raise' or not same(to_plain(o4[1]), want):
+          bad('flatten-inverse', 'canonicalize[shuffled-items]',
+              f'flat={flat2!r:.400}\nback={o4!r:.400}')
+        else:
+          o5 = outcome(lambda: pg.utils.flatten(o4[1], flatten_complex_keys=False))
+          if o5[0] == 'raise' or not (isinstance(o5[1], dict) and set(o5[1]) == set(flat)
+                                      and all(same(to_plain(o5[1][k]), to_plain(flat[k])) for k in flat)):
+            bad('flatten-inverse', 'flatten-of-canonicalized',
+                f'flat={flat2!r:.300}\nflatten(canonicalize(flat))={o5!r:.300}')
+      if flat_problem is None and o2[0] != 'raise' and same(to_plain(o2[1]), want) and not any(
+          isinstance(k, str) and any(ch in k for ch in SPECIAL)
+          for keys in exp_leaves for k in keys):
         c['flatten_inverse'] += 1
         o3 = outcome(lambda: pg.utils.canonicalize(pg.utils.flatten(root)))
         if o3[0] == 'raise' or not same(to_plain(o3[1]), want):
